@@ -4,6 +4,7 @@
 """
 
 import itertools
+import math
 import random
 
 from cnfgen.formula.cnf import CNF
@@ -48,6 +49,9 @@ If after enough samples we haven't got enough clauses we use dense
 sampling, namely we generare all possible clauses and pick at random
 m of them. This approach always succeeds, but is quite slower and
 wasteful for just few samples."""
+    if m > math.comb(n, k) * 2**k:
+        # (before the sparse sampling, which would try 10*m times)
+        raise ValueError("Too many clauses requested")
     sampled = set()
     variables = range(1,n+1)
     t = 0
